@@ -29,6 +29,9 @@ import (
 func TestVerif_C17(t *testing.T) {
 	rec := kit.Open("C17")
 	defer rec.Done()
+	// fault part: SetTombstone/UnsetTombstone with the sidecar rename made to fail
+	// (verif FS hook); a nil error must come with the requested state
+	defer c17FaultRun(rec)
 	nShards := rec.N(40, 1500)
 	nOps := 12
 	nQ := rec.N(8, 12)
